@@ -7,10 +7,10 @@
 
    C01's encoder (raw_box false / encode_seq false) applied to this tree is the model of InitSegment.Encode;
    C01's decoder (decode_file) applied to those bytes is the model of DecodeFile's box loop.
-   Boxes C01 has no leaf for (hvcC, stpp, wvtt, dac3, dec3) are MUnknown boxes carrying the payload bytes of the
+   Boxes C01 has no leaf for (hvcC, esds, stpp, wvtt, dac3, dec3) are MUnknown boxes carrying the payload bytes of the
    C19 models (C19RecModel.hvcrec_encode, C19Model.stpp_payload, ...): C01's decoder returns them as UnknownBox,
    which is NOT what Go's typed decoders do, so equality of the decoded tree says for these boxes only that
-   the bytes come back.  esds is not modelled: histories with an AAC descriptor have no tree (None). *)
+   the bytes come back. *)
 From Coq Require Import String Ascii.
 From V.lib Require Import Base.
 From V.c13 Require Import C13Model.
@@ -41,6 +41,19 @@ Definition n_dec3 := BS "dec3".
 Definition compressor_name : list N := BS "mp4ff video packager".
 
 (* ------------------------------------------------------------------ sample entries *)
+(* EsdsBox.EncodeSW for CreateEsdsBox(asc): version/flags 0, then the descriptors of CreateESDescriptor, every size
+   field one byte (sizeFieldSizeMinus1 0: byte(size) & 0x7f):
+   ES_Descr(3){ES_ID 1, flags 0, DecoderConfig(4){objectType 0x40, streamType 0x15, bufferSizeDB 0, max/avg bitrate 0,
+   DecSpecificInfo(5){asc}}, SLConfig(6){2}} *)
+Definition n_esds := BS "esds".
+Definition esds_payload (asc : list N) : list N :=
+  let n := lenN asc in
+  [0; 0; 0; 0]
+  ++ [3; (23 + n) mod 128; 0; 1; 0]
+  ++ [4; (15 + n) mod 128; 64; 21; 0; 0; 0; 0; 0; 0; 0; 0; 0; 0; 0]
+  ++ [5; n mod 128] ++ asc
+  ++ [6; 1; 2].
+
 (* Dac3Box.EncodeSW (InitialZeroes 0, Reserved 0): 24 bits *)
 Definition dac3_payload (d : dac3) : list N :=
   let '(mkDac3 fscod bsid bsmod acmod lfeon brc) := d in
@@ -73,7 +86,7 @@ Definition entry_box (e : sentry) : option mbox :=
                              [unkb n_hvcC (hvcrec_encode r)])
       | None => None
       end
-  | CfgEsds _ => None
+  | CfgEsds asc => Some (preb (LAudio (se_name e) (se_dref e) (se_a e) (se_b e) (se_c e)) [unkb n_esds (esds_payload asc)])
   | CfgDac3 d => Some (preb (LAudio (se_name e) (se_dref e) (se_a e) (se_b e) (se_c e)) [unkb n_dac3 (dac3_payload d)])
   | CfgDec3 d =>
       match dec3_payload d with
